@@ -192,3 +192,56 @@ func VerifC05StreamWrite() {
 	// property does not say whether it should, so that case is not asserted)
 	verifReach("end")
 }
+
+// VerifC05StreamOpenRefused: with ErrOnUnauthorized, opening a writer on an index, a data and a virtual channel
+// that another writer holds fails cleanly exactly when the newcomer would not control every channel, and a
+// refused open leaves nothing behind: the holder still controls every channel and a later, identical open is
+// refused the same way (no gate of the refused writer stays registered).
+func VerifC05StreamOpenRefused() {
+	ctx := context.Background()
+	db, _ := verifStreamDB(ctx)
+	const virtKey ChannelKey = 3
+	if err := db.CreateChannel(ctx, Channel{Key: virtKey, Name: "virt", DataType: telem.Int64T, Virtual: true}); err != nil {
+		panic(err)
+	}
+	auths := [3]xcontrol.Authority{1, 100, 200}
+	pick := func(label string) xcontrol.Authority { return auths[verifLen(label, 0, 2)] }
+	keys := []ChannelKey{verifIdxKey, verifDataKey, virtKey}
+	a1 := []xcontrol.Authority{pick("w1.idx"), pick("w1.data"), pick("w1.virt")}
+	a2 := []xcontrol.Authority{pick("w2.idx"), pick("w2.data"), pick("w2.virt")}
+	yes, no := true, false
+	open := func(name string, a []xcontrol.Authority, strict bool) (*streamWriter, error) {
+		return db.newStreamWriter(ctx, WriterConfig{
+			ControlSubject: xcontrol.Subject{Key: name, Name: name},
+			Start:          10 * telem.SecondTS,
+			Channels:       keys,
+			Authorities:    a,
+			Mode:           WriterModePersistStream,
+			Sync:           &yes, EnableAutoCommit: &no, ErrOnUnauthorized: &strict, AutoIndex: &no,
+		})
+	}
+	w1, err := open("w1", a1, false)
+	if err != nil {
+		panic(err)
+	}
+	// virtual channels are shared-mode: a writer of equal authority is admitted there
+	controlsAll := a2[0] > a1[0] && a2[1] > a1[1] && a2[2] >= a1[2]
+	_, err2 := open("w2", a2, true)
+	verifAssert("strict-open-refused-iff-some-channel-not-controlled", (err2 != nil) == !controlsAll)
+	if err2 == nil {
+		return
+	}
+	verifAssert("refusal-is-unauthorized", errors.Is(err2, xcontrol.ErrUnauthorized))
+	// nothing left behind: the same subject can try again and is refused the same way (a leftover gate would
+	// make the retry fail with "already registered" or change who controls)
+	_, err3 := open("w2", a2, true)
+	verifAssert("retry-refused-the-same-way", err3 != nil && errors.Is(err3, xcontrol.ErrUnauthorized))
+	// the holder still controls every channel
+	fr := telem.MultiFrame(
+		[]ChannelKey{virtKey},
+		[]telem.Series{{DataType: telem.Int64T, Data: []byte{1, 0, 0, 0, 0, 0, 0, 0}}},
+	)
+	werr := w1.write(ctx, WriterRequest{Command: WriterCommandWrite, Frame: fr})
+	verifAssert("holder-still-writes-after-refused-open", werr == nil)
+	verifReach("end")
+}
